@@ -12,8 +12,9 @@ def kv (toks : List String) (key : String) : String :=
   | some t => (t.drop (key.length + 1)).toString
   | none => ""
 
-/-- fix=0 the code as it is; 1 = patch of dependenciesCompleted; 2 = patch of markShadowedUnits; 3 = both -/
-def parseFix (s : String) : Patch := ⟨s == "1" || s == "3", s == "2" || s == "3"⟩
+/-- fix = sum of: 1 patch of dependenciesCompleted, 2 patch of markShadowedUnits, 4 graph stage index in the
+tier2 request; 0 = the code as it is -/
+def parseFix (s : String) : Patch := let n := nat! s; ⟨n % 2 == 1, (n / 2) % 2 == 1, (n / 4) % 2 == 1⟩
 
 def parseRange (s : String) : Option Range :=
   if s == "nil" || s == "" then none else
@@ -183,7 +184,8 @@ def runSched (verbose : Bool) : List (Nat × Bool) → Acc → Acc
           (match newJob a.st st' with
            | some (u, sb) =>
              let seg := sb / a.st.cfg.interval
-             let miss := missingDeps a.st.cfg a.st.files u.stage (seg * a.st.cfg.interval)
+             let t := if a.st.fix.stageIdx then (a.st.stages.stageAt u.stage).idx else u.stage
+             let miss := missingDeps a.st.cfg a.st.files t (seg * a.st.cfg.interval)
              a.jobs ++ [s!"({u.seg},{u.stage})" ++ (if miss.isEmpty then "ok" else "KO[" ++ "+".intercalate miss ++ "]")]
            | none => a.jobs)
         | _ => a.jobs
@@ -240,6 +242,9 @@ def partialsString (f : Files) : String :=
 /-- state identity used by the explorers (same abstraction as the harness, which cannot look inside a closure):
 the bag as a multiset of command kinds -/
 def stateKey (st : State) : String :=
+  match st.ended with
+  | some (.panic _) => "PANIC"
+  | _ =>
   let bag := (st.bag.map fun c => String.singleton (cmdTag c)).foldl (fun acc x => insertStr x acc) []
   s!"{statesString st.stages} {fingerprint st.stages} {poolString st.pool} {walkString st.walker} " ++
   s!"{st.outDone},{st.storesDone} {"".intercalate bag} {fullsString st.files} {outsString st.files} " ++
@@ -298,10 +303,12 @@ def stepViolations (st : State) (idx : Nat) (st' : State) : List String :=
       (match newJob st st' with
        | some (u, sb) =>
          let seg := sb / st.cfg.interval
-         let miss := missingDeps st.cfg st.files u.stage (seg * st.cfg.interval)
-         if miss.isEmpty then [] else
+         let t := if st.fix.stageIdx then (st.stages.stageAt u.stage).idx else u.stage
+         let miss := missingDeps st.cfg st.files t (seg * st.cfg.interval)
+         (if miss.isEmpty then [] else
            [if u.seg ≤ (st.stages.stageAt u.stage).seg.firstIndex then "C05/job-before-lower-stage-complete/first-segment-of-stage"
-            else "C05/job-before-lower-stage-complete/lower-stage-previous-segment-incomplete"]
+            else "C05/job-before-lower-stage-complete/lower-stage-previous-segment-incomplete"]) ++
+         (if !st.fix.stageIdx && (st.stages.stageAt u.stage).idx ≠ u.stage then ["C05/stage-index-shift-when-store-stage-skipped"] else [])
        | none => [])
     | _ => []
   let v3 := match c with
@@ -361,7 +368,9 @@ partial def unwrapBatches (st : State) (clock : Bool) (path : List (Nat × Bool)
 
 partial def exploreFrom (budget : Nat) (st0 : State) (clock : Bool) (path0 : List (Nat × Bool)) (x : XState) : XState × Nat :=
   let (st, path) := unwrapBatches st0 clock path0
-  let key := stateKey st ++ (if clock then " clk" else "")
+  let key := match st.ended with
+    | some (.panic _) => "PANIC"
+    | _ => stateKey st ++ (if clock then " clk" else "")
   match x.visited[key]? with
   | some id => (x, id)
   | none =>
